@@ -11,6 +11,10 @@
 
 using namespace vf;
 
+#ifndef VF_TNAME
+#define VF_TNAME "lookup_c19"
+#endif
+
 static const char *feat(int i) {
   static const char *n[] = {"n_ge_64", "present_key", "absent_key", "correct_hint_lower_bound", "correct_hint_upper_bound", "smallset_inline", "n_ge_512", "smallset_large_over_flatset"};
   return i < 8 ? n[i] : 0;
@@ -236,7 +240,7 @@ static void run_small(const char *name) {
 }
 
 int main(int argc, char **argv) {
-  enum_init(argc, argv, "lookup_c19");
+  enum_init(argc, argv, VF_TNAME);
   typedef int32_t I;
   run_flat<amc::FlatSet<I, CLess<I>, AStd<I>, amc::vector<I, AStd<I> > > >("less/amc::vector/int");
   run_flat<amc::FlatSet<I, CGreater<I>, AStd<I>, amc::SmallVector<I, 4, AStd<I> > > >("greater/SmallVector4/int");
